@@ -193,16 +193,16 @@ func canonErr(err error) string {
 }
 
 type env struct {
-	c         *core.Ctx
-	farm      *casim.Farm
-	keys      *casim.SSHKeys
-	dir       string
-	certFile  string
-	keyFile   string
-	caFile    string
-	behs      map[string]beh
-	tryTO     time.Duration
-	ctxTO     time.Duration // deadline of the context handed to Sign (0 = one minute, as cmd/gensign)
+	c        *core.Ctx
+	farm     *casim.Farm
+	keys     *casim.SSHKeys
+	dir      string
+	certFile string
+	keyFile  string
+	caFile   string
+	behs     map[string]beh
+	tryTO    time.Duration
+	ctxTO    time.Duration // deadline of the context handed to Sign (0 = one minute, as cmd/gensign)
 }
 
 func (e *env) newSigner(eps []int, retries uint) (*crypki.Signer, error) {
@@ -387,7 +387,7 @@ func (e *env) signCall(class string, signer *crypki.Signer, eps []int, behs map[
 		core.GApp("CSign", core.GList(epItems), core.GList(behItems), core.GN(reqID), core.GList(logItems),
 			core.GList(certIDs), core.GStrList(comms), canonErr(serr)),
 		map[string]interface{}{"endpoints": eps, "behaviour": behHuman, "retries": retries,
-			"earlier_calls_on_this_signer": earlier,
+			"earlier_calls_on_this_signer":      earlier,
 			"requests_seen(endpoint:unchanged)": logHuman, "certs": certIDs, "comments": comms, "err": fmt.Sprint(serr)})
 }
 
@@ -530,7 +530,7 @@ func run(c *core.Ctx) {
 		}
 		e.runHistory(class, eps, calls)
 	}
-	history("history-recovered", []int{1, 2}, "FS", "SS")                 // endpoint 1 is back: it must be asked first again
+	history("history-recovered", []int{1, 2}, "FS", "SS") // endpoint 1 is back: it must be asked first again
 	history("history-recovered", []int{3, 1, 4}, "FFS", "SSS", "SFS")
 	history("history-after-all-fail", []int{2, 4}, "FF", "SS", "FF", "SS")
 	history("history-after-all-fail", []int{4, 3, 2, 1}, "FFFF", "FSSS", "SSSS")
@@ -608,6 +608,16 @@ func run(c *core.Ctx) {
 	}
 	for n := 0; n <= 4; n++ {
 		e.runSign(fmt.Sprintf("reply-%d-keys", n), []int{4}, map[int]beh{4: genReply(r, e.keys, n)}, 1)
+	}
+	// a CA reply with a very long line (a comment of 64 KiB and more): still one certificate per key line, in order
+	longLine := func(id uint64, n int) line {
+		cm := strings.Repeat("c", n)
+		return line{key: id, comment: cm, text: e.keys.Line(id) + " " + cm}
+	}
+	for _, n := range []int{70000} {
+		short := func(id uint64) line { return line{key: id, comment: "k", text: e.keys.Line(id) + " k"} }
+		e.runSign("reply-long-line", []int{4}, map[int]beh{4: {kind: "reply", eol: "\n", last: true, lines: []line{short(1), longLine(2, n), short(3)}}}, 1)
+		e.runSign("reply-long-first-line", []int{1, 2}, map[int]beh{1: {kind: "reply", eol: "\n", last: true, lines: []line{longLine(2, n)}}, 2: genReply(r, e.keys, 1)}, 1)
 	}
 	e.runSign("deadline", []int{1, 2}, map[int]beh{1: {kind: "slow"}, 2: genReply(r, e.keys, 2)}, 1)
 	e.runSign("deadline-all", []int{3}, map[int]beh{3: {kind: "slow"}}, 1)
